@@ -1,6 +1,6 @@
 #!/bin/sh
 # runs every registered check (quick tier by default) on the current tree
-cd /verif
+cd "$(dirname "$0")/.."
 tier=${1:-quick}
 for p in $(python3 -c "import sys; sys.path.insert(0,'checks'); from props import PROPS; print(' '.join(sorted(PROPS)))"); do
   python3 checks/run.py $p --tier $tier | tail -1
